@@ -38,7 +38,9 @@ class guard:
     def __enter__(self):
         import signal
         self._old = signal.signal(signal.SIGALRM, self._fire)
-        signal.setitimer(signal.ITIMER_REAL, self.seconds)
+        # re-armed every half second after the first expiry: code under test (construct's wrappers, `except Exception`
+        # in a loop) may swallow the first CallTimeout; the next one lands somewhere that does not
+        signal.setitimer(signal.ITIMER_REAL, self.seconds, 0.5)
         return self
 
     def __exit__(self, *a):
